@@ -890,6 +890,86 @@ func DoublePushBlock(rng *rand.Rand) string {
 	}
 }
 
+// EpInterpose: the side to move is in check by a slider whose line runs through the en-passant target square, its
+// king has no safe square, and a pawn can capture en passant - landing on that line. Whether this is mate hinges on
+// that capture (and on whether it is legal: the target is recorded only if it is).
+func EpInterpose(rng *rand.Rand) string {
+	for {
+		bd := make([]int, 64)
+		c := rng.Intn(2) // the side to move
+		f := rng.Intn(8)
+		toR, epR := 4, 5 // c = white captures a black pawn on the fifth rank, target on the sixth
+		if c == 1 {
+			toR, epR = 3, 2
+		}
+		bd[toR*8+f] = 8*(1-c) + 1
+		nc := 0
+		for _, nf := range []int{f - 1, f + 1} {
+			if nf >= 0 && nf < 8 && rng.Intn(3) != 0 {
+				bd[toR*8+nf] = 8*c + 1
+				nc++
+			}
+		}
+		if nc == 0 {
+			continue
+		}
+		// a line through the target square: the target's rank or one of its diagonals
+		d := []int{0, 4, 5, 6, 7}[rng.Intn(5)] // east, and the four diagonals (the opposite ray is the other half)
+		ep := epR*8 + f
+		kn, sn := 1+rng.Intn(3), 1+rng.Intn(4)
+		kf, kr := f-kn*df[d], epR-kn*dr[d]
+		sf, sr := f+sn*df[d], epR+sn*dr[d]
+		if !onBoard(kf, kr) || !onBoard(sf, sr) {
+			continue
+		}
+		k, sl := kr*8+kf, sr*8+sf
+		if bd[k] != 0 || bd[sl] != 0 {
+			continue
+		}
+		clear := true
+		for i := 1; i < kn+sn; i++ {
+			if q := (kr+i*dr[d])*8 + kf + i*df[d]; bd[q] != 0 {
+				clear = false
+			}
+		}
+		if !clear {
+			continue
+		}
+		bd[k] = 8*c + 6
+		if d == 0 {
+			bd[sl] = 8*(1-c) + []int{4, 5}[rng.Intn(2)]
+		} else {
+			bd[sl] = 8*(1-c) + []int{3, 5}[rng.Intn(2)]
+		}
+		origin := ep + (epR-toR)*8
+		if origin < 0 || origin > 63 || bd[origin] != 0 {
+			continue
+		}
+		ek := rng.Intn(64)
+		if bd[ek] != 0 || ek == ep || ek == origin || (abs(ek%8-kf) <= 1 && abs(ek/8-kr) <= 1) {
+			continue
+		}
+		bd[ek] = 8*(1-c) + 6
+		for i := 0; i < 7 && kingHasSafeMove(bd, c); i++ {
+			sq := rng.Intn(64)
+			if bd[sq] == 0 && sq != ep && sq != origin && !(sq/8 == epR && d == 0) {
+				bd[sq] = 8*(1-c) + []int{5, 4, 3, 2}[rng.Intn(4)]
+			}
+		}
+		if kingHasSafeMove(bd, c) && rng.Intn(3) != 0 {
+			continue
+		}
+		if !countsOK(bd) || Attacked(bd, ek, c) || !Attacked(bd, k, 1-c) {
+			continue
+		}
+		e := -1
+		if EpCapturable(bd, c, ep) {
+			e = ep
+		}
+		return FEN(bd, c, 0, e, 0, 1+rng.Intn(60))
+	}
+}
+
 // BoxedKing builds positions in which the king of the side to move has no safe move, so that the
 // answer of the checkmate / stalemate tests hinges on the other pieces: pawn pushes and captures
 // (edge files included), double-push blocks, pinned defenders, en-passant resolutions.
